@@ -58,17 +58,23 @@ FASTOR_INLINE void _transpose(const T * FASTOR_RESTRICT a, T * FASTOR_RESTRICT o
         size_t i=0;
         for (; i< M0; i+=innerBlock) {
             // Pack A
+            // every row of the block is outerBlock = numSIMDRows*V::Size wide
             for (size_t ii=0; ii<innerBlock; ++ii) {
-                _vec.load(&a[(i+ii)*N+(j)],false);
-                _vec.store(&pack_a[ii*outerBlock]);
+                for (size_t vv=0; vv<numSIMDRows; ++vv) {
+                    _vec.load(&a[(i+ii)*N+(j)+vv*V::Size],false);
+                    _vec.store(&pack_a[ii*outerBlock+vv*V::Size]);
+                }
             }
             // Perform transpose on pack_a and get the result
             // on pack_out
             internal::_transpose_dispatch<T,innerBlock,outerBlock>(pack_a,pack_out);
             // Unpack pack_out to out
+            // every row of the transposed block is innerBlock = numSIMDCols*V::Size wide
             for (size_t jj=0; jj<outerBlock; ++jj) {
-                _vec.load(&pack_out[jj*innerBlock]);
-                _vec.store(&out[(j+jj)*M+(i)],false);
+                for (size_t vv=0; vv<numSIMDCols; ++vv) {
+                    _vec.load(&pack_out[jj*innerBlock+vv*V::Size]);
+                    _vec.store(&out[(j+jj)*M+(i)+vv*V::Size],false);
+                }
             }
         }
 
